@@ -183,6 +183,7 @@ def gen_model(seed):
     rich = r.chance(1, 2)
     cb = "u64" if r.chance(1, 4) else "ArgPair"
     shared_name = r.chance(1, 4)
+    touchy_names = seed % 7 == 3
     traits = []
     for ti in range(ntraits):
         name = names[ti]
@@ -191,6 +192,10 @@ def gen_model(seed):
             kind = r.pick(["ref", "ref", "mut", "own"])
             pool = SCALARS + (RICH_ARGS if rich else [])
             args = [(r.pick(pool).replace("{cb}", cb), "a%d" % k) for k in range(r.below(5 if rich else 3))]
+            if args and touchy_names and r.chance(1, 2):
+                # a user's argument may carry a name the generated wrapper text uses itself
+                k = r.below(len(args))
+                args[k] = (args[k][0], r.pick(["container", "context", "instance", "vtbl", "ret"]))
             ret = r.pick(["void"] + SCALARS + (["struct ArgPair", "const uint8_t *"] if rich else []))
             fname = "%s_f%d" % (name.lower(), fi)
             if shared_name and fi == 0:
